@@ -9,7 +9,22 @@ SlotC == FlattenSeq([i \in 1..Len(SlotCases) |->
            [r \in 1..SlotReps |->
               LET c == Streams[((i * SlotReps + r) % NS) + 1].c
               IN [kind |-> "slot", forest |-> SlotCases[i], bytes |-> EncodeStream(SlotCases[i], c)]]])
+\* random forests: every other one as a stream in two parts with a change of symbol context in between
 Rand == [i \in 1..NS |-> LET f == GenForest(Streams[i].s)
-                         IN [kind |-> "random", forest |-> f, bytes |-> EncodeStream(f, Streams[i].c)]]
-ASSUME ndJsonSerialize(OutFile, SlotC \o Rand)
+                         IN [kind |-> IF i % 2 = 0 THEN "random-parts" ELSE "random", forest |-> f,
+                             bytes |-> IF i % 2 = 0 THEN EncodeStreamParts(f, Streams[i].c) ELSE EncodeStream(f, Streams[i].c)]]
+\* forests rich in symbol tokens (values, annotations, field names over a rotating window of catalogue texts, a
+\* system symbol among them) behind padding imports that move the local symbols across the ID-width boundaries
+Pads == <<117, 118, 245, 246, 247, 16373, 16374, 65525, 65526>>
+SymV(t) == Val("symbol", <<>>, TextTok(t))
+TextAt(k) == Texts[((k - 1) % Len(Texts)) + 1]
+SymForest(w) == << SymV(TextAt(w)), SymV(TextAt(w + 1)), Annotated(SymV(TextAt(w + 2)), <<TextTok(TextAt(w + 3)), TextTok(TextAt(w))>>),
+                   Val("struct", <<>>, << [name |-> TextTok(TextAt(w + 1)), val |-> SymV(TextAt(w + 4))],
+                                          [name |-> TextTok(TextAt(w + 5)), val |-> Val("list", <<>>, <<SymV(TextAt(w + 5)), SymV(T_name)>>)] >>),
+                   Val("sexp", <<>>, <<SymV(TextAt(w + 6)), SymV(TextAt(w))>>) >>
+NPadded == 4
+Padded == FlattenSeq([p \in 1..Len(Pads) |-> [i \in 1..NPadded |->
+             LET f == SymForest(7 * i + p)
+             IN [kind |-> "padded", forest |-> f, bytes |-> EncodeStreamPadded(f, Streams[((i + p) % NS) + 1].c, Pads[p])]]])
+ASSUME ndJsonSerialize(OutFile, SlotC \o Rand \o Padded)
 =============================================================================
